@@ -117,13 +117,13 @@ func checkValueLookup(r *Run, prog *Program, a *Anchors, pfx string) {
 	r.Floor(pfx+".lookup", 8)
 	seenClasses := map[string]int{}
 	for _, sm := range sums {
-		if sm.Panic != nil || len(sm.Results) != 3 {
+		val, present, err, okShape := lookupResults(fn.Signature, sm.Results)
+		if sm.Panic != nil || !okShape || val == nil || present == nil {
 			r.Check(pfx+".lookup", "panic-or-shape", prog.pos(fn.Pos()), false, "explicit panic or unexpected result shape in the value lookup")
 			continue
 		}
 		pos := prog.pos(sm.Ret.Pos())
 		lf := collectLookup(sm)
-		val, present, err := sm.Results[0], sm.Results[1], sm.Results[2]
 		pv, pconst := present.BoolConst()
 		ec := errClass(sm, err)
 		trail := " [path " + strings.Join(sm.St.trail, " ") + "]"
@@ -327,7 +327,7 @@ func checkQuantifierAbsent(r *Run, prog *Program, a *Anchors, pfx string) {
 					e = &Sym{K: sNewErr, V: ev.Instr.Value(), Str: "lookup"}
 					gerr = e
 				}
-				return &Sym{K: sTuple, Kids: []*Sym{{K: sOpaque, V: ev.Instr.Value(), Str: "value"}, {K: sConst, C: constant.MakeBool(false)}, e}}
+				return a.lookupModel(&Sym{K: sOpaque, V: ev.Instr.Value(), Str: "value"}, &Sym{K: sConst, C: constant.MakeBool(false)}, e)
 			}
 			return nil
 		}
